@@ -343,8 +343,18 @@ impl<'a> Tr<'a> {
                         }
                         _ => return self.unsupported(l.span(), "`let` with `else`"),
                     };
-                    if mode == Mode::Value {
-                        // nothing but pure lets
+                    // `let x = match … { … };` / `let x = if … { … } else { … };` with blocks as branches: a value block
+                    let init_s = self.strip(init)?;
+                    let multi = match init_s {
+                        Expr::Match(_) => true,
+                        Expr::If(i) => matches!(&*i.cond, Expr::Let(_)) || i.then_branch.stmts.len() != 1 || !matches!(i.then_branch.stmts.first(), Some(Stmt::Expr(_, None))),
+                        _ => false,
+                    };
+                    if multi {
+                        let lines = self.control(init_s, &env, Mode::Value, &[])?;
+                        out.push(Chunk::LetState(lean_ident(&name), lines));
+                        env.push(Var { name, ty: declared.unwrap_or(Ty::Unknown), kind: Kind::Plain });
+                        continue;
                     }
                     let (v, t) = self.expr(init, &env)?;
                     self.check_effect_order(init)?;
@@ -441,6 +451,23 @@ impl<'a> Tr<'a> {
                             return Ok(done);
                         }
                         continue;
+                    }
+                    if let Expr::Assign(a) = e {
+                        if matches!(&*a.right, Expr::Match(_)) {
+                            let v = self.fresh("v");
+                            let id = syn::Ident::new(&v, a.right.span());
+                            let l: Stmt = syn::parse_quote!(let #id = 0;);
+                            let mut l = match l {
+                                Stmt::Local(l) => l,
+                                _ => unreachable!(),
+                            };
+                            l.init.as_mut().unwrap().expr = a.right.clone();
+                            let mut a2 = a.clone();
+                            a2.right = Box::new(syn::parse_quote!(#id));
+                            let mut all: Vec<Stmt> = vec![Stmt::Local(l), Stmt::Expr(Expr::Assign(a2), Some(Default::default()))];
+                            all.extend(stmts[i + 1..].iter().cloned());
+                            return self.block_from(&all, env, mode, sp, out);
+                        }
                     }
                     let control = matches!(e, Expr::If(_) | Expr::Match(_));
                     if last && semi.is_none() && self.wants_value(mode) {
@@ -800,13 +827,37 @@ impl<'a> Tr<'a> {
         if nb > 0 && mode != Mode::Tail {
             return self.unsupported(m.expr.span(), "early exit to `None` inside a nested statement block:");
         }
-        // (Lean pattern, bound variable with type, body)
-        let mut arms: Vec<(String, Option<(String, Ty)>, &Expr)> = vec![];
+        // (Lean pattern, bound variables with types, body)
+        let mut arms: Vec<(String, Vec<(String, Ty)>, &Expr)> = vec![];
         match &st {
+            Ty::Bool => {
+                // match b { true => A, false => B }
+                let mut seen: Vec<bool> = vec![];
+                for arm in &m.arms {
+                    if arm.guard.is_some() || !arm.attrs.is_empty() {
+                        return self.unsupported(arm.span(), "match arm with a guard or an attribute");
+                    }
+                    let v = match &arm.pat {
+                        Pat::Lit(l) => match &l.lit {
+                            Lit::Bool(b) => b.value,
+                            _ => return self.unsupported(arm.pat.span(), "match pattern (only `true` and `false`)"),
+                        },
+                        _ => return self.unsupported(arm.pat.span(), "match pattern (only `true` and `false`)"),
+                    };
+                    if seen.contains(&v) {
+                        return self.err(arm.pat.span(), format!("`{v}` matched twice"));
+                    }
+                    seen.push(v);
+                    arms.push((v.to_string(), vec![], &arm.body));
+                }
+                if seen.len() != 2 {
+                    return self.unsupported(e.span(), "`match` on a bool without both `true` and `false` arms;");
+                }
+            }
             Ty::Named { rust, .. } => {
                 let variants = match self.enum_variants(rust) {
                     Some(Ok(v)) => v,
-                    Some(Err(why)) => return self.unsupported(e.span(), format!("`match` on an enum with fields ({why});")),
+                    Some(Err(why)) => return self.unsupported(e.span(), format!("`match` on an enum with named fields ({why});")),
                     None => return self.err(e.span(), format!("outside the supported subset: `match` on `{rust}`, which is not an enum defined in this file")),
                 };
                 let mut seen: Vec<String> = vec![];
@@ -819,25 +870,43 @@ impl<'a> Tr<'a> {
                         p => vec![p],
                     };
                     let mut lean_pats = vec![];
-                    for p in pats {
-                        let v = match p {
-                            Pat::Path(pp) if pp.qself.is_none() && pp.path.segments.len() == 2 && (pp.path.segments[0].ident == rust.as_str() || pp.path.segments[0].ident == "Self") => {
-                                pp.path.segments[1].ident.to_string()
+                    let mut bound: Vec<(String, Ty)> = vec![];
+                    for p in &pats {
+                        let is_variant_path = |path: &syn::Path| path.segments.len() == 2 && (path.segments[0].ident == rust.as_str() || path.segments[0].ident == "Self");
+                        let (v, subs): (String, Vec<String>) = match p {
+                            Pat::Path(pp) if pp.qself.is_none() && is_variant_path(&pp.path) => (pp.path.segments[1].ident.to_string(), vec![]),
+                            Pat::TupleStruct(ts) if ts.qself.is_none() && is_variant_path(&ts.path) && pats.len() == 1 => {
+                                let mut subs = vec![];
+                                for el in &ts.elems {
+                                    match el {
+                                        Pat::Ident(i) if i.by_ref.is_none() && i.mutability.is_none() && i.subpat.is_none() => subs.push(i.ident.to_string()),
+                                        _ => return self.unsupported(p.span(), "match pattern (the fields of a variant can only be bound to names)"),
+                                    }
+                                }
+                                (ts.path.segments[1].ident.to_string(), subs)
                             }
                             _ => return self.unsupported(p.span(), format!("match pattern (only `{rust}::Variant`, one arm per variant, no `_`)")),
                         };
-                        if !variants.contains(&v) {
-                            return self.err(p.span(), format!("`{rust}` has no variant `{v}`"));
+                        let ftys = match variants.iter().find(|(n, _)| *n == v) {
+                            Some((_, f)) => f.clone(),
+                            None => return self.err(p.span(), format!("`{rust}` has no variant `{v}`")),
+                        };
+                        if ftys.len() != subs.len() {
+                            return self.err(p.span(), format!("`{rust}::{v}` has {} field(s)", ftys.len()));
                         }
                         if seen.contains(&v) {
                             return self.err(p.span(), format!("variant `{v}` matched twice"));
                         }
                         seen.push(v.clone());
-                        lean_pats.push(self.lean_variant(rust, &v));
+                        for (x, t) in subs.iter().zip(&ftys) {
+                            bound.push((x.clone(), self.ty(t)?));
+                        }
+                        let args: Vec<String> = subs.iter().map(|x| lean_ident(x)).collect();
+                        lean_pats.push(self.lean_variant(rust, &v, &args));
                     }
-                    arms.push((lean_pats.join(" | "), None, &arm.body));
+                    arms.push((lean_pats.join(" | "), bound, &arm.body));
                 }
-                for v in &variants {
+                for (v, _) in &variants {
                     if !seen.contains(v) {
                         return self.err(e.span(), format!("outside the supported subset: `match` without an arm for `{rust}::{v}`"));
                     }
@@ -855,13 +924,13 @@ impl<'a> Tr<'a> {
                             Pat::Ident(p) if p.by_ref.is_none() && p.mutability.is_none() && p.subpat.is_none() => {
                                 some = true;
                                 let x = p.ident.to_string();
-                                arms.push((format!("some {}", lean_ident(&x)), Some((x, (**inner).clone())), &arm.body));
+                                arms.push((format!("some {}", lean_ident(&x)), vec![(x, (**inner).clone())], &arm.body));
                             }
                             _ => return self.unsupported(arm.pat.span(), "match pattern (only `Some(x)` and `None`)"),
                         },
                         Pat::Ident(p) if p.ident == "None" && p.subpat.is_none() && p.by_ref.is_none() && p.mutability.is_none() && !none => {
                             none = true;
-                            arms.push(("none".to_string(), None, &arm.body));
+                            arms.push(("none".to_string(), vec![], &arm.body));
                         }
                         _ => return self.unsupported(arm.pat.span(), "match pattern (only `Some(x)` and `None`, once each)"),
                     }
@@ -870,7 +939,7 @@ impl<'a> Tr<'a> {
                     return self.unsupported(e.span(), "`match` on an Option without both `Some(x)` and `None` arms;");
                 }
             }
-            _ => return self.unsupported(e.span(), "`match` on a value that is neither a fieldless enum nor an Option;"),
+            _ => return self.unsupported(e.span(), "`match` on a value that is neither an enum of this file, an Option nor a bool;"),
         }
         let mut lines = vec![format!("match {} with  -- L{}", s.s, line_of(e.span()))];
         self.match_depth += 1 + nb;
@@ -882,7 +951,7 @@ impl<'a> Tr<'a> {
             };
             let mut env2 = env.clone();
             let mut names = vec![];
-            if let Some((x, t)) = bound {
+            for (x, t) in bound {
                 names.push(x.clone());
                 env2.push(var(x, t));
             }
@@ -910,6 +979,7 @@ impl<'a> Tr<'a> {
     /// `F: FnOnce(A) -> B` (inline or in the where clause) for every generic parameter of the fn
     fn fn_generics(&mut self, sig: &syn::Signature) -> Res<()> {
         self.closures.clear();
+        self.intos.clear();
         let sp = sig.span();
         for gp in &sig.generics.params {
             let tp = match gp {
@@ -923,6 +993,22 @@ impl<'a> Tr<'a> {
                     if let syn::WherePredicate::Type(pt) = pred {
                         if matches!(&pt.bounded_ty, Type::Path(p) if p.path.is_ident(&name)) {
                             bounds.extend(pt.bounds.iter());
+                        }
+                    }
+                }
+            }
+            // `E: Into<T>`: the parameter stands for `T`, `.into()` is the identity
+            if let [syn::TypeParamBound::Trait(tb)] = bounds.as_slice() {
+                if let Some(seg) = tb.path.segments.last() {
+                    if seg.ident == "Into" {
+                        if let syn::PathArguments::AngleBracketed(ab) = &seg.arguments {
+                            if let (1, Some(syn::GenericArgument::Type(t))) = (ab.args.len(), ab.args.first()) {
+                                let target = self.ty(t)?;
+                                note!(self, generics, format!("the type parameter `{}: Into<{}>` of fn {} is `{}` (`.into()` is the identity: the conversion is not translated)", name, self.src_text(t.span()), self.fn_name, target.lean()));
+                                self.closures.push((name.clone(), target));
+                                self.intos.push(name);
+                                continue;
+                            }
                         }
                     }
                 }
@@ -969,6 +1055,7 @@ impl<'a> Tr<'a> {
         if sig.asyncness.is_some() || sig.unsafety.is_some() || sig.abi.is_some() || sig.variadic.is_some() {
             return self.unsupported(sp, "async/unsafe/extern function");
         }
+        self.into_params.clear();
         self.fn_generics(sig)?;
         self.has_self = false;
         self.self_mut = false;
@@ -1011,6 +1098,9 @@ impl<'a> Tr<'a> {
                         }
                     }
                     let t = self.ty(&pt.ty)?;
+                    if matches!(&*pt.ty, Type::Path(p) if p.path.get_ident().map(|i| self.intos.contains(&i.to_string())).unwrap_or(false)) {
+                        self.into_params.push(name.clone());
+                    }
                     if mut_binding && !matches!(t, Ty::Fn(..)) {
                         return self.unsupported(pt.span(), "argument pattern (only `x: T`, no `mut`)");
                     }
